@@ -59,11 +59,11 @@ impl Monitor for C15 {
         "C15"
     }
     fn rule(&self) -> String {
-        "case = one (rate, epsilon, delta): the first 8x8x18 cases are the full grid rate in {0.001..10} x epsilon in {1e-12..0.5} x delta chosen so that the mean rate*delta is about {0.001 .. 5000}; the remaining cases draw rate log-uniformly in [1e-3,10], epsilon log-uniformly in [1e-12,0.5] and the mean log-uniformly in [1e-3, 6000]. The oracle evaluates the Poisson mass function in log space and sums upper tails directly; the returned n is accepted iff P[N>n] <= eps(1+1e-6)+1e-13 and (n = 0 or P[N>n-1] > eps(1-1e-6)-1e-13); arrival_probability must be finite, within [0,1] and within relative 1e-9 (absolute 1e-300) of the oracle for k around the mode and in both tails; number_arrivals(0) = 0; number_arrivals is non-decreasing over delta, 2 delta, 3 delta; termination is decided by an iteration budget of n* + 10 sqrt(mean) + 100 loop iterations (hook H3), not by a clock. Non-trivial = mean >= 1 and 0 < n* ; distinct = distinct (rate, epsilon, delta).".to_string()
+        "case = one (rate, epsilon, delta): the first 8x8x18 cases are the full grid rate in {0.001..10} x epsilon in {1e-12..0.5} x delta chosen so that the mean rate*delta is about {0.001 .. 5000}; the remaining cases draw rate log-uniformly in [1e-3,10], epsilon log-uniformly in [1e-12,0.5] and the mean log-uniformly in [1e-3, 6000]; every sixth random case has epsilon in [1e-13,1e-12] and a mean <= 6 (absolute tolerance 1e-14 instead of 1e-13 there). The oracle evaluates the Poisson mass function in log space and sums upper tails directly; the returned n is accepted iff P[N>n] <= eps(1+1e-6)+1e-13 and (n = 0 or P[N>n-1] > eps(1-1e-6)-1e-13); arrival_probability must be finite, within [0,1] and within relative 1e-9 (absolute 1e-300) of the oracle for k around the mode and in both tails; number_arrivals(0) = 0; number_arrivals is non-decreasing over delta, 2 delta, 3 delta; termination is decided by an iteration budget of n* + 10 sqrt(mean) + 100 loop iterations (hook H3), not by a clock. Non-trivial = mean >= 1 and 0 < n* ; distinct = distinct (rate, epsilon, delta).".to_string()
     }
     fn assumptions(&self) -> Vec<String> {
         vec![
-            "epsilon in [1e-12, 0.5]: below about 1e-15 no f64 accumulation of the mass function can reach 1-epsilon".to_string(),
+            "epsilon in [1e-13, 0.5] (below 1e-12 only for means <= 6): below about 1e-15 no f64 accumulation of the mass function can reach 1-epsilon".to_string(),
             "ties at machine precision are accepted in either direction (band 1e-6 relative, 1e-13 absolute on the tail probability)".to_string(),
         ]
     }
@@ -94,7 +94,24 @@ impl Monitor for C15 {
             let mean = if index % 4 == 3 { 10f64.powf(-1.0 + 4.5 * rng.f64()) } else { 10f64.powf(-3.0 + 6.78 * rng.f64()) };
             (rate, eps, ((mean / rate).round() as u64).max(1))
         };
+        // every sixth random case: a very small epsilon (1e-13 .. 1e-12) with a small mean, where the
+        // accumulated rounding error of a cumulative sum of at most ~40 terms stays below 1e-14
+        let tiny_eps = index >= grid && index % 6 == 5;
+        let (rate, eps, delta) = if tiny_eps {
+            let rate = 10f64.powf(-3.0 + 3.0 * rng.f64());
+            let mean = 10f64.powf(-2.0 + 2.7 * rng.f64());
+            (rate, 10f64.powf(-13.0 + rng.f64()), ((mean / rate).round() as u64).max(1))
+        } else {
+            (rate, eps, delta)
+        };
+        let abs_tol = if tiny_eps { 1e-14 } else { 1e-13 };
         let mean = rate * delta as f64;
+        if tiny_eps {
+            if mean > 6.0 {
+                return;
+            }
+            rep.count("epsilons_below_1e-12", 1);
+        }
         rep.sample = Some(jobj! {"rate" => rate, "epsilon" => eps, "delta" => delta, "mean" => mean});
         if mean > 7000.0 {
             return;
@@ -128,8 +145,8 @@ impl Monitor for C15 {
             Err(c) => rep.violation(format!("C15 kind=panic class={}", c.class()), detail(c.to_json())),
             Ok(n) => {
                 let t_n = if n < tails.len() { tails[n] } else { 0.0 };
-                let ok_upper = t_n <= eps * (1.0 + 1e-6) + 1e-13;
-                let ok_lower = n == 0 || (n - 1 < tails.len() && tails[n - 1] > eps * (1.0 - 1e-6) - 1e-13);
+                let ok_upper = t_n <= eps * (1.0 + 1e-6) + abs_tol;
+                let ok_lower = n == 0 || (n - 1 < tails.len() && tails[n - 1] > eps * (1.0 - 1e-6) - abs_tol);
                 if !ok_upper {
                     rep.violation(
                         format!("C15 kind=quantile-too-small (exceedance probability above epsilon) {}", band),
